@@ -1,12 +1,21 @@
 import FpVerif.Sexp
 import FpVerif.Model.Future
-/-! Oracle for fp.Future / package future (C06): replays a scenario script on the network model. -/
+import FpVerif.Model.FutureChain
+/-! Oracle for fp.Future / package future (C06, and the arity-indexed builder families of C14): replays a scenario
+    script on the network model. -/
 open FpVerif FpVerif.Sexp FpVerif.Fut
+
+/-- a `MonadChainN` / `ApplicativeFunctorN` value the script holds on to (staged building: `cnew`, `cstep`) -/
+inductive Bld where
+  | chain (app : Ex → Val → Val → W Val) (st : ChainSt) (remaining : Nat)
+  | appl (app : Ex → Val → Val → W Val) (fn : Nat) (remaining : Nat)
+  | done
 
 structure World where
   net : Net
   nsrc : Nat
   defs : List Nat
+  blds : List Bld := []
 
 def hOf (w : World) : Sexp → Option Nat
   | .list [.atom "s", i] => i.asNat?
@@ -172,6 +181,237 @@ def defOf (w : World) : Sexp → Option FExpr
         | .failure e => (.success (.str e.toStr), []))) (fun v => (v, [])))
   | _ => none
 
+-- arity-indexed families (Model/FutureChain.lean) --------------------------------------------------------------
+
+def exOf : Sexp → Option Ex
+  | .atom "u" => some .u
+  | .atom "d" => some .d
+  | _ => none
+
+def joinV (xs : List Val) : String := ",".intercalate (xs.map toString)
+
+def wsum (xs : List Val) : Int :=
+  (xs.zipIdx.map (fun (x, i) => ((i : Int) + 1) * x.asInt)).foldl (· + ·) 0
+
+/-- N-ary user functions `(sumN id) | (tupN id)`: log `fn<id>@<executor>:a1,…,aN` -/
+def nfnOf : Sexp → Option NFn
+  | .list [.atom "sumN", id] => do
+    let id ← id.asInt?
+    pure fun c xs => (.int (wsum xs), [s!"fn{id}@{c.tag}:{joinV xs}"])
+  | .list [.atom "tupN", id] => do
+    let id ← id.asInt?
+    pure fun c xs => (.seq xs, [s!"fn{id}@{c.tag}:{joinV xs}"])
+  | _ => none
+
+def optOfS : Sexp → Option (Option Val)
+  | .list [.atom "some", n] => do pure (some (.int (← n.asInt?)))
+  | .list [.atom "none"] => pure none
+  | _ => none
+
+/-- the future a callback returns, from the number `v` it computed -/
+def kindBody (w : World) (v : Int) : Sexp → Option FExpr
+  | .atom "succ" => pure (.successful (.int v))
+  | .list [.atom "failif", m, e] => do
+    let m ← m.asInt?; let e ← e.asInt?
+    pure (if emodI v m == 0 then .failed (.code e) else .successful (.int v))
+  | .list [.atom "fail", e] => do pure (.failed (.code (← e.asInt?)))
+  | .list [.atom "ref", h] => do pure (.ref (← hOf w h))
+  | .list [.atom "map", h, f] => do pure (Fut.map (.ref (← hOf w h)) (← linW f))
+  | _ => none
+
+/-- `(sup id BODY)`: a supplier returning a future; logs `s<id>@<executor>` -/
+def supFut (w : World) : Sexp → Option (Ex → FExpr)
+  | .list [.atom "sup", id, .list [.atom "succ", n]] => do
+    let id ← id.asInt?; let n ← n.asInt?
+    pure fun c => .logged [s!"s{id}@{c.tag}"] (.successful (.int n))
+  | .list [.atom "sup", id, body] => do
+    let id ← id.asInt?
+    let b ← kindBody w 0 body
+    pure fun c => .logged [s!"s{id}@{c.tag}"] b
+  | _ => none
+
+def headInt : Val → Int
+  | .seq [x] => x.asInt
+  | _ => 0
+
+def hlInts : Val → List Val
+  | .seq l => l
+  | _ => []
+
+def stepOf (w : World) : Sexp → Option (Ex × Step)
+  | .list [.atom "apFuture", h] => do pure (.d, .a (.apFuture (← hOf w h)))
+  | .list [.atom "ap", n] => do pure (.d, .a (.ap (.int (← n.asInt?))))
+  | .list [.atom "apTry", t] => do pure (.d, .a (.apTry (← tryOfS t)))
+  | .list [.atom "apOption", o] => do pure (.d, .a (.apOption (← optOfS o)))
+  | .list [.atom "apFutureFunc", x, sup] => do pure (← exOf x, .a (.apFutureFunc (← supFut w sup)))
+  | .list [.atom "apTryFunc", x, .list [.atom "sup", id, t]] => do
+    let id ← id.asInt?; let t ← tryOfS t
+    pure (← exOf x, .a (.apTryFunc fun c => (t, [s!"s{id}@{c.tag}"])))
+  | .list [.atom "apOptionFunc", x, .list [.atom "sup", id, o]] => do
+    let id ← id.asInt?; let o ← optOfS o
+    pure (← exOf x, .a (.apOptionFunc fun c => (o, [s!"s{id}@{c.tag}"])))
+  | .list [.atom "apFunc", x, .list [.atom "sup", id, n]] => do
+    let id ← id.asInt?; let n ← n.asInt?
+    pure (← exOf x, .a (.apFunc fun c => (.int n, [s!"s{id}@{c.tag}"])))
+  | .list [.atom "flatMap", x, .list [.atom "kh", id, a, b, kind]] => do
+    let id ← id.asInt?; let a ← a.asInt?; let b ← b.asInt?
+    -- every kind must parse now (a bad one makes the whole op `bad-op`)
+    let _ ← kindBody w 0 kind
+    pure (← exOf x, .flatMap fun c hd =>
+      .logged [s!"k{id}@{c.tag}:{hd}"] ((kindBody w (a * headInt hd + b) kind).getD (.failed .nil)))
+  | .list [.atom "map", x, .list [.atom "kh", id, a, b]] => do
+    let id ← id.asInt?; let a ← a.asInt?; let b ← b.asInt?
+    pure (← exOf x, .map fun c hd => (.int (a * headInt hd + b), [s!"k{id}@{c.tag}:{hd}"]))
+  | .list [.atom "hlistFlatMap", x, .list [.atom "hk", id, kind]] => do
+    let id ← id.asInt?
+    let _ ← kindBody w 0 kind
+    pure (← exOf x, .hlistFlatMap fun c h =>
+      .logged [s!"hk{id}@{c.tag}:{h}"] ((kindBody w (wsum (hlInts h) + 1) kind).getD (.failed .nil)))
+  | .list [.atom "hlistMap", x, .list [.atom "hk", id]] => do
+    let id ← id.asInt?
+    pure (← exOf x, .hlistMap fun c h => (.int (wsum (hlInts h) + 1), [s!"hk{id}@{c.tag}:{h}"]))
+  | _ => none
+
+def astepOf (w : World) (s : Sexp) : Option (Ex × AStep) := do
+  match ← stepOf w s with
+  | (c, .a s) => pure (c, s)
+  | _ => none
+
+/-- `(kn id KIND)`: an N-ary user function returning a future; logs `kn<id>@<executor>:a1,…,aN` -/
+def knOf (w : World) : Sexp → Option (Ex → List Val → FExpr)
+  | .list [.atom "kn", id, kind] => do
+    let id ← id.asInt?
+    let _ ← kindBody w 0 kind
+    pure fun c xs => .logged [s!"kn{id}@{c.tag}:{joinV xs}"] ((kindBody w (wsum xs) kind).getD (.failed .nil))
+  | _ => none
+
+/-- `(kx id KIND)`: a unary user function returning a future; logs `kx<id>@<executor>:v` -/
+def kxOf (w : World) : Sexp → Option (Ex → Val → FExpr)
+  | .list [.atom "kx", id, kind] => do
+    let id ← id.asInt?
+    let _ ← kindBody w 0 kind
+    pure fun c v => .logged [s!"kx{id}@{c.tag}:{v}"] ((kindBody w (v.asInt + 1) kind).getD (.failed .nil))
+  | _ => none
+
+/-- `(fe id mode e)`: `func(…) (R, error)`; mode 1 returns the error, mode 2 panics -/
+def feOf : Sexp → Option (Ex → List Val → W (Try Val))
+  | .list [.atom "fe", id, m, e] => do
+    let id ← id.asInt?; let m ← m.asInt?; let e ← e.asInt?
+    pure fun c xs =>
+      (if m == 1 then .failure (.code e) else if m == 2 then .failure (.panicErr s!"{e}") else .success (.seq xs),
+       [s!"fe{id}@{c.tag}:{joinV xs}"])
+  | _ => none
+
+/-- `(kt id a b m e)`: a unary user function; logs `kt<id>@<executor>:v`; `r = a*v + b`, failing when `m ≠ 0` divides `r` -/
+def ktOf : Sexp → Option (Ex → Val → W (Try Val))
+  | .list [.atom "kt", id, a, b, m, e] => do
+    let id ← id.asInt?; let a ← a.asInt?; let b ← b.asInt?; let m ← m.asInt?; let e ← e.asInt?
+    pure fun c v =>
+      let r := a * v.asInt + b
+      (if m != 0 && emodI r m == 0 then .failure (.code e) else .success (.int r), [s!"kt{id}@{c.tag}:{v}"])
+  | _ => none
+
+/-- the same callback used as a plain function: `a*v + b` -/
+def ktRaw : Sexp → Option (Ex → Val → W Val)
+  | .list [.atom "kt", id, a, b, _, _] => do
+    let id ← id.asInt?; let a ← a.asInt?; let b ← b.asInt?
+    pure fun c v => (.int (a * v.asInt + b), [s!"kt{id}@{c.tag}:{v}"])
+  | _ => none
+
+def toSeqW (v : Val) : W Val := (match v with | .seq l => .seq l | o => .seq [o], [])
+
+def vInts (xs : List Sexp) : Option (List Val) := xs.mapM (fun x => do pure (Val.int (← x.asInt?)))
+
+def tupToSeq (t : Val) : W Val := (match t with | .tup l => .seq l | o => o, [])
+
+/-- definitions that are PROGRAMS of several constructions (builders, FlapN) -/
+def defProg (w : World) : Sexp → Option (Net → Nat × Net)
+  | .list (.atom "chain" :: n :: f :: steps) => do
+    let n ← n.asNat?; let fn ← nfnOf f
+    let steps ← steps.mapM (stepOf w)
+    if steps.length != n || n == 0 then none
+    pure (runChain fn steps)
+  | .list (.atom "applicative" :: n :: f :: steps) => do
+    let n ← n.asNat?; let fn ← nfnOf f
+    let steps ← steps.mapM (astepOf w)
+    if steps.length != n || n == 0 then none
+    pure (runApplicative fn steps)
+  | .list (.atom "flap" :: x :: f :: tf :: vs) => do
+    let x ← exOf x; let fn ← nfnOf f; let vs ← vInts vs
+    if vs.isEmpty then none
+    let app := applyC vs.length fn
+    match tf with
+    | .list [.atom "tfs"] => pure fun n => let (t, n) := build (.successful (pa [])) n; flapRun app x t vs n
+    | .list [.atom "tfm", h] => do
+      let p ← hOf w h
+      pure fun n => let (t, n) := build (Fut.map (.ref p) (fun _ => (pa [], []))) n; flapRun app x t vs n
+    | _ => none
+  | .list [.atom "apx", x, f, h1, h2] => do pure (apRun (← nfnOf f) (← exOf x) (← hOf w h1) (← hOf w h2))
+  | .list [.atom "apFuncx", x, f, h1, sup] => do pure (apFuncRun (← nfnOf f) (← exOf x) (← hOf w h1) (← supFut w sup))
+  | .list [.atom "withx", x, f, h, v] => do pure (withRun (← nfnOf f) (← exOf x) (← hOf w h) (.int (← v.asInt?)))
+  | _ => none
+
+/-- the func_gen.go families that are one construction expression -/
+def defFam (w : World) : Sexp → Option FExpr
+  | .list (.atom "liftAN" :: x :: f :: hs) => do
+    let hs ← hs.mapM (hOf w)
+    if hs.isEmpty then none
+    pure (liftA (← nfnOf f) (← exOf x) hs)
+  | .list (.atom "zipN" :: hs) => do
+    let hs ← hs.mapM (hOf w)
+    pure (Fut.map (zipN hs) tupToSeq)
+  | .list (.atom "liftMN" :: x :: k :: hs) => do
+    let hs ← hs.mapM (hOf w)
+    if hs.isEmpty then none
+    pure (liftMN (← knOf w k) (← exOf x) hs)
+  | .list (.atom "method" :: _n :: x :: f :: h :: vs) => do
+    -- Method1 / Method2 / MethodN all have the same body; `_n` is only the name suffix the harness calls
+    pure (methodN (← hOf w h) (← nfnOf f) (← exOf x) (← vInts vs))
+  | .list (.atom "flatMethod" :: n :: x :: k :: h :: vs) => do
+    pure (flatMethodN (← n.asNat?) (← hOf w h) (← knOf w k) (← exOf x) (← vInts vs))
+  | .list (.atom "func" :: _x :: f :: vs) => do pure (funcN (← feOf f) (← vInts vs))
+  | .list (.atom "unitf" :: _x :: f :: vs) => do
+    let f ← feOf f
+    -- UnitN, then the harness's own Map(…, unit => any)
+    pure (Fut.map (funcN (fun c xs => let (t, evs) := f c xs; (match t with | .success _ => .success .unit | o => o, evs)) (← vInts vs))
+      (fun v => (v, [])))
+  | .list [.atom "map2x", x, f, a, b] => do pure (liftA (← nfnOf f) (← exOf x) [← hOf w a, ← hOf w b])
+  | .list [.atom "replace", h, v] => do pure (Fut.replace (← hOf w h) (.int (← v.asInt?)))
+  | .list [.atom "fromTry", t] => do pure (fromTry (← tryOfS t))
+  | .list [.atom "fromOption", o] => do pure (fromOption (← optOfS o))
+  | .list [.atom "composeTry", x, v, k1, k2] => do
+    pure (composeTry (← ktOf k1) (← kxOf w k2) (← exOf x) (.int (← v.asInt?)))
+  | .list [.atom "composeOption", x, v, k1, k2] => do
+    let k1 ← ktOf k1
+    pure (composeOption (fun c a => let (t, evs) := k1 c a; (match t with | .success r => some r | .failure _ => none, evs))
+      (← kxOf w k2) (← exOf x) (.int (← v.asInt?)))
+  | .list [.atom "composePure", v, k1] => do
+    pure (composePure (← ktRaw k1) (.int (← v.asInt?)))
+  | .list (.atom "traverseSlice" :: k :: xs) => do
+    let xs ← xs.mapM Sexp.asInt?
+    -- TraverseSlice = Map(traverse(…), Widen); the harness maps once more to `any`
+    pure (Fut.map (Fut.map (Fut.traverseSeq (xs.map Val.int) (← kfOf w k)) (fun l => (l, []))) (fun l => (l, [])))
+  | .list (.atom "sequenceIt" :: hs) => do
+    pure (Fut.map (Fut.sequence (← hs.mapM (hOf w))) (fun l => (l, [])))
+  | .list [.atom "flatMapTraverseSeq", h, k] => do
+    pure (Fut.map (flatMapTraverseSeq (Fut.map (.ref (← hOf w h)) toSeqW) (← kfOf w k)) (fun l => (l, [])))
+  | .list [.atom "flatMapTraverseSlice", h, k] => do
+    -- FlatMap(ta, xs => TraverseSlice(xs, f)) where TraverseSlice = Map(traverse, Widen)
+    let k ← kfOf w k
+    pure (Fut.map (.flatMap (Fut.map (.ref (← hOf w h)) toSeqW) (fun xs => Fut.map (Fut.traverseSeq (elems xs) k) (fun l => (l, []))))
+      (fun l => (l, [])))
+  | .list [.atom "mapSeqLift", x, h, k] => do
+    let k ← ktRaw k
+    -- `(slice H)`: MapSliceLift, the same body on a slice
+    let h := match h with | .list [.atom "slice", h'] => h' | o => o
+    pure (Fut.map (mapSeqLift (Fut.map (.ref (← hOf w h)) toSeqW) k (← exOf x)) (fun l => (l, [])))
+  | .list [.atom "func0", x, f] => do pure (func0 (← feOf f) (← exOf x))
+  | .list (.atom "composeN" :: x :: v :: ks) => do
+    let ks ← ks.mapM (kxOf w)
+    if ks.isEmpty then none
+    pure (composeN (← exOf x) ks .s (.int (← v.asInt?)))
+  | _ => none
+
 def showStatus (o : Option (Try Val)) : String :=
   match o with
   | some t => toString (Val.ofTry t)
@@ -189,9 +429,49 @@ partial def drain (n : Net) : Net :=
 
 def runStmt (w : World) (out : List String) : Sexp → Option (World × List String)
   | .list [.atom "def", d] => do
-      let e ← defOf w d
-      let (p, n) := build e w.net
-      pure ({ w with net := n, defs := w.defs ++ [p] }, out)
+      match defProg w d with
+      | some prog =>
+        let (p, n) := prog w.net
+        -- a builder used in one go occupies a builder slot of the script, like a staged one
+        let isB := match d with | .list (.atom "chain" :: _) => true | .list (.atom "applicative" :: _) => true | _ => false
+        pure ({ w with net := n, defs := w.defs ++ [p], blds := if isB then w.blds ++ [.done] else w.blds }, out)
+      | none =>
+        let e ← (defFam w d).orElse (fun _ => defOf w d)
+        let (p, n) := build e w.net
+        pure ({ w with net := n, defs := w.defs ++ [p] }, out)
+  | .list [.atom "cnew", .atom "chain", n, f] => do
+      let n ← n.asNat?; let fn ← nfnOf f
+      if n == 0 then none
+      let (st, net) := chainNew w.net
+      pure ({ w with net := net, blds := w.blds ++ [.chain (applyC n fn) st n] }, out)
+  | .list [.atom "cnew", .atom "applicative", n, f] => do
+      let n ← n.asNat?; let fn ← nfnOf f
+      if n == 0 then none
+      let (f0, net) := applicativeNew w.net
+      pure ({ w with net := net, blds := w.blds ++ [.appl (applyC n fn) f0 n] }, out)
+  | .list [.atom "cstep", b, st] => do
+      let b ← b.asNat?
+      match ← w.blds[b]? with
+      | .chain app r (k + 2) =>
+        let (c, s) ← stepOf w st
+        let (r', net) := chainStep app r c s w.net
+        pure ({ w with net := net, blds := w.blds.set b (.chain app r' (k + 1)) }, out)
+      | .chain app r 1 =>
+        let (c, s) ← stepOf w st
+        let (q, net) := chainLast app r c s w.net
+        pure ({ w with net := net, blds := w.blds.set b .done, defs := w.defs ++ [q] }, out)
+      | .appl app f (k + 2) =>
+        let (c, s) ← astepOf w st
+        let (f', net) := applicativeStep app f false c s w.net
+        pure ({ w with net := net, blds := w.blds.set b (.appl app f' (k + 1)) }, out)
+      | .appl app f 1 =>
+        let (c, s) ← astepOf w st
+        let (q, net) := applicativeStep app f true c s w.net
+        pure ({ w with net := net, blds := w.blds.set b .done, defs := w.defs ++ [q] }, out)
+      | _ => none
+  | .list [.atom "mark", k] => do
+      let k ← k.asNat?
+      pure ({ w with net := { w.net with log := w.net.log ++ [s!"mark{k}"] } }, out)
   | .list [.atom "obs", h, id] => do
       let p ← hOf w h; let id ← id.asNat?
       pure ({ w with net := onComplete p (.observe id) w.net }, out)
